@@ -3,8 +3,12 @@ import sys
 
 import numpy as np
 
+import dask
+
+dask.config.set(scheduler="synchronous")  # tiny arrays: threads only add overhead (scheduler independence is C01's subject)
+
 from common import (Ctx, LeanDriver, Property, bool_s, dyadic, err_kind, list_s, listlist_s, run_property)
-from msd_trace import Tracer, entry_s, tagged_potential_array, tagged_waves
+from msd_trace import Tracer, entry_s, expected_ids, tagged_potential_array, tagged_waves
 
 
 # ----------------------------------------------------------------------------- helpers
@@ -64,7 +68,12 @@ def gen_case(ctx: Ctx, traced=False):
     scan = [[dyadic(rng, 0, 3.5, 2), dyadic(rng, 0, 3.5, 2)] for _ in range(rng.randint(1, 2))] if builder != "plane" else None
     if builder == "prism":
         kind, spec = "none", None  # SMatrix (abtem/prism/s_matrix.py): one exit plane
-    return dict(nslices=n, atoms=atoms, spec=spec, seeds=seeds, sigma=rng.choice([0.05, 0.1, 0.2]), builder=builder, det=det,
+    # entry state: how the incident waves reach multislice_and_detect — through the builder API, or as a Waves object in
+    # real / reciprocal space; which algorithm (step kernel) runs the slices
+    entry = "builder" if builder == "prism" else rng.choice(["builder", "real", "reciprocal", "reciprocal"])
+    algorithm = "fourier" if builder == "prism" else rng.choice(["fourier", "fourier", "fourier-conjugate", "realspace"])
+    return dict(entry=entry, algorithm=algorithm,
+                nslices=n, atoms=atoms, spec=spec, seeds=seeds, sigma=rng.choice([0.05, 0.1, 0.2]), builder=builder, det=det,
                 scan=scan, gpts=rng.choice([8, 12]), lazy=rng.random() < 0.5, kind=rng.choice(["frozen", "frozen", "atoms_ensemble"]),
                 mean=(rng.random() < 0.35 and det != "waves"), directions=rng.choice(["xyz", "xy"]))
 
@@ -77,21 +86,46 @@ def _detector(c):
             "flexible": abtem.FlexibleAnnularDetector(step_size=10)}[c["det"]]
 
 
-def _run(c, potential, lazy=False):
+def _algorithm(c):
+    from abtem.multislice import FourierMultislice, RealSpaceMultislice
+
+    a = c.get("algorithm", "fourier")
+    if a == "realspace":
+        return dict(algorithm=RealSpaceMultislice(order=1, max_terms=30))
+    if a == "fourier-conjugate":
+        return dict(algorithm=FourierMultislice(conjugate=True))
+    return {}
+
+
+def _run(c, potential, lazy=False, entry=None):
+    """one simulation; `entry` (default: the case's) selects how the incident waves reach multislice_and_detect"""
     import abtem
 
     kw = dict(energy=100e3, extent=4.0, gpts=c["gpts"])
     det = _detector(c)
-    if c["builder"] == "plane":
-        r = abtem.PlaneWave(**kw).multislice(potential, detectors=det, lazy=lazy)
-    elif c["builder"] == "prism":
+    entry = c.get("entry", "builder") if entry is None else entry
+    akw = _algorithm(c)
+    if c["builder"] == "prism":
         if c["det"] == "annular":
             det = abtem.AnnularDetector(inner=5, outer=25)
         r = abtem.SMatrix(potential=potential, energy=100e3, semiangle_cutoff=25, interpolation=1).scan(
             scan=abtem.CustomScan(np.array(c["scan"])), detectors=det, lazy=lazy)
+    elif entry == "builder":
+        if c["builder"] == "plane":
+            r = abtem.PlaneWave(**kw).multislice(potential, detectors=det, lazy=lazy, **akw)
+        else:
+            r = abtem.Probe(semiangle_cutoff=30, **kw).multislice(potential, scan=abtem.CustomScan(np.array(c["scan"])),
+                                                                  detectors=det, lazy=lazy, **akw)
     else:
-        r = abtem.Probe(semiangle_cutoff=30, **kw).multislice(potential, scan=abtem.CustomScan(np.array(c["scan"])),
-                                                              detectors=det, lazy=lazy)
+        if c["builder"] == "plane":
+            w = abtem.PlaneWave(**kw).build(lazy=False)
+        else:
+            w = abtem.Probe(semiangle_cutoff=30, **kw).build(scan=abtem.CustomScan(np.array(c["scan"])), lazy=False)
+        if entry == "reciprocal":
+            w = w.ensure_reciprocal_space()
+        if lazy:
+            w = w.ensure_lazy()
+        r = w.multislice(potential, detectors=det, **akw)
     return r.compute(progress_bar=False) if lazy else r
 
 
@@ -129,8 +163,10 @@ def trace_case(rng):
         spec = rng.randint(1, n + 1)
     else:
         spec = ([-1] if rng.random() < 0.5 else []) + sorted(rng.sample(range(n), rng.randint(1, n)))
+    # entry state of multislice_and_detect: representation of the incident waves, algorithm (which step kernel)
     return dict(n=n, ncfg=ncfg, spec=spec, mode=rng.choice(["direct", "eager", "lazy"]), batch=rng.choice([[], [2]]),
-                pot=rng.choice(["array", "frozen"]), seeds=rng.sample(range(1, 10 ** 6), ncfg))
+                pot=rng.choice(["array", "frozen"]), seeds=rng.sample(range(1, 10 ** 6), ncfg),
+                recip=rng.random() < 0.5, algorithm=rng.choice(["fourier", "fourier", "realspace"]))
 
 
 def run_traced(c):
@@ -153,21 +189,26 @@ def run_traced(c):
             single = abtem.Potential(_single_atoms(cc, k), gpts=4, slice_thickness=1.0)
             configs.append(tr.register_slices(list(single.generate_slices()), 10 * k + 1))
     gp = 4
-    w = tagged_waves(gp, tuple(c["batch"]))
+    recip = bool(c.get("recip", False))
+    w = tagged_waves(gp, tuple(c["batch"]), recip=recip)
     if c["pot"] == "frozen":
         w = abtem.waves.Waves(np.ones(tuple(c["batch"]) + (gp, gp), dtype=np.complex64), energy=100e3, extent=4.0,
-                              ensemble_axes_metadata=w.ensemble_axes_metadata)
+                              ensemble_axes_metadata=w.ensemble_axes_metadata, reciprocal_space=recip)
+    kw = {}
+    if c.get("algorithm", "fourier") == "realspace":
+        from abtem.multislice import RealSpaceMultislice
+        kw["algorithm"] = RealSpaceMultislice()
     try:
         with tr.patched():
             if c["mode"] == "direct":
-                arr = multislice_and_detect(w, pot, [WavesDetector()])[0].array
+                arr = multislice_and_detect(w, pot, [WavesDetector()], **kw)[0].array
             else:
                 import warnings
                 with warnings.catch_warnings():
                     warnings.simplefilter("ignore")
                     if c["mode"] == "lazy":
                         w = w.ensure_lazy()
-                    r = w.multislice(pot, detectors=WavesDetector())
+                    r = w.multislice(pot, detectors=WavesDetector(), **kw)
                     arr = r.compute(progress_bar=False).array if c["mode"] == "lazy" else r.array
         ens_shape, hs = tr.decode(arr)
         nb = int(np.prod(c["batch"])) if c["batch"] else 1
@@ -286,20 +327,21 @@ class C02(Property):
                 impl = listlist_s([[int(x) for x in blk[1]] for blk in blocks])
                 add("CrystalPotential._partition_args", f"part {list_s(vc[0])} {list_s(seeds)}", "ok " + impl, case)
         # traced orchestration
-        for i in range(ctx.n(90, 1200)):
+        for i in range(ctx.n(90, 900)):
             c = trace_case(rng)
             pot, configs, text = run_traced(c)
+            configs = expected_ids(configs, c["algorithm"])
             planes = list_s(int(p) for p in pot.exit_planes)
             if c["mode"] == "lazy":
                 # lazy: MultisliceTransform partitions the ensemble one configuration per block; the model is asked per block
                 for k, cfg in enumerate(configs):
-                    lines.append(f"msd T {planes} {pot.num_slices} {listlist_s([cfg])}")
+                    lines.append(f"msd T {planes} {pot.num_slices} {listlist_s([cfg])} {bool_s(c['recip'])}")
                     impls.append(None); names.append("__block__"); cases.append((c, False))
                 add("MultisliceTransform(lazy, traced)", "assemble", text, c)
             else:
                 add("multislice_and_detect(traced)" if c["mode"] == "direct" else "Waves.multislice(eager, traced)",
-                    f"msd T {planes} {pot.num_slices} {listlist_s(configs)}", text, c)
-            ctx.count(f"trace:{c['pot']}:{c['mode']}:ncfg={c['ncfg']}")
+                    f"msd T {planes} {pot.num_slices} {listlist_s(configs)} {bool_s(c['recip'])}", text, c)
+            ctx.count(f"trace:{c['pot']}:{c['mode']}:ncfg={c['ncfg']}:recip={c['recip']}:{c['algorithm']}")
             ctx.traces += 1
         real = [l for l in lines if l != "assemble"]
         outs = iter(drv.query(real))
@@ -319,7 +361,7 @@ class C02(Property):
 
     # ------------------------------------------------------------------ conformance
     def oracle(self, ctx: Ctx, c):
-        tag = f"{c['kind']}:{c['builder']}:{c['det']}:{'lazy' if c['lazy'] else 'eager'}"
+        tag = f"{c['kind']}:{c['builder']}:{c['det']}:{'lazy' if c['lazy'] else 'eager'}:entry={c.get('entry')}:{c.get('algorithm')}"
         ens = _ensemble(c, ensemble_mean=False)
         # (1) configurations are determined by the seeds alone
         confs = [_single_atoms(c, k) for k in range(len(c["seeds"]))]
@@ -335,11 +377,12 @@ class C02(Property):
             return
         singles = []
         for k, a in enumerate(confs):
-            one = np.asarray(_run(c, _potential(c, a)).array)
+            one = np.asarray(_run(c, _potential(c, a), entry="builder").array)
             singles.append(one)
             ok, why = _close(arr[k], one)
             if not ok:
-                key = "config-k-neq-single-run" + (":k>0" if k > 0 else ":k=0") + (":lazy" if c["lazy"] else ":eager")
+                key = "config-k-neq-single-run" + (":k>0" if k > 0 else ":k=0") + (":lazy" if c["lazy"] else ":eager") + \
+                    (":reciprocal-incident" if c.get("entry") == "reciprocal" else "")
                 ctx.violation(key, c, {"config": k, "what": why, "case": tag})
                 return
         # (3) ensemble_mean=True is the mean of the single runs
@@ -359,13 +402,14 @@ class C02(Property):
                 ctx.violation("result-depends-on-processing-order", c, {"what": why, "case": tag})
 
     def conformance(self, ctx: Ctx):
-        for i in range(ctx.n(40, 500)):
+        for i in range(ctx.n(40, 300)):
             c = gen_case(ctx)
             try:
                 self.oracle(ctx, c)
             except Exception as e:  # noqa
                 ctx.violation("frozen-phonon-run-raises:" + type(e).__name__, c, {"error": f"{type(e).__name__}: {e}"[:300]})
-            ctx.count(f"numeric:{c['kind']}:{c['builder']}:{c['det']}:{'lazy' if c['lazy'] else 'eager'}:ncfg={len(c['seeds'])}")
+            ctx.count(f"numeric:{c['kind']}:{c['builder']}:{c['det']}:{'lazy' if c['lazy'] else 'eager'}:ncfg={len(c['seeds'])}:"
+                      f"entry={c['entry']}:{c['algorithm']}")
             ctx.case(c, nontrivial=len(c["seeds"]) > 1)
 
     def replay(self, ctx: Ctx, case):
